@@ -35,6 +35,36 @@ type simStdin struct {
 	empties  int
 	c        *runCtx
 	eofSeen  bool
+
+	// staged delivery: bytes beyond gates[stage] do not exist yet (the producer has not written them);
+	// advance() makes the next stage available
+	gates  []int
+	stage  int
+	gateCh chan struct{}
+}
+
+// limit is the number of bytes the producer has written so far.
+func (s *simStdin) limit() int {
+	if len(s.gates) == 0 || s.stage >= len(s.gates) {
+		return len(s.data)
+	}
+	if g := s.gates[s.stage]; g < len(s.data) {
+		return g
+	}
+	return len(s.data)
+}
+
+// advance lets the producer write the next stage; false if everything was written already.
+func (s *simStdin) advance() bool {
+	if s.stage >= len(s.gates) {
+		return false
+	}
+	s.stage++
+	if s.gateCh != nil {
+		close(s.gateCh)
+	}
+	s.gateCh = make(chan struct{})
+	return true
 }
 
 func newSimStdin(c *runCtx, data []byte, reads, gaps []int, errAt int) *simStdin {
@@ -81,6 +111,20 @@ func (s *simStdin) Read(p []byte) (int, error) {
 		s.c.count("fault.read_error", 1)
 		return 0, errSimRead
 	}
+	for s.off >= s.limit() && s.stage < len(s.gates) {
+		// the producer is alive but has nothing more to say yet
+		if s.gateCh == nil {
+			s.gateCh = make(chan struct{})
+		}
+		ch := s.gateCh
+		select {
+		case <-ch:
+		case <-s.closed:
+			s.c.count("fault.stdin_closed_mid_stream", 1)
+			return 0, os.ErrClosed
+		}
+		zsim.Yield("stdin.read")
+	}
 	if s.off >= len(s.data) {
 		if s.holdOpen {
 			<-s.closed
@@ -107,7 +151,7 @@ func (s *simStdin) Read(p []byte) (int, error) {
 	if want > 0 && want < n {
 		n = want
 	}
-	if rem := len(s.data) - s.off; n > rem {
+	if rem := s.limit() - s.off; n > rem {
 		n = rem
 	}
 	if s.errAt >= 0 && s.off+n > s.errAt {
